@@ -67,6 +67,50 @@ pub fn main(args: &[String]) -> i32 {
             println!("> .checkpoint {:?}", db.checkpoint().map(|c| (c.frames_checkpointed, c.wal_truncated)));
             continue;
         }
+        if let Some(sql) = l.strip_prefix(".kill ") {
+            // process-kill image: the files as they are now (handle still open), opened as a
+            // second database (recovery runs), one statement executed on it
+            fn copy_dir(src: &std::path::Path, dst: &std::path::Path) {
+                let _ = std::fs::create_dir_all(dst);
+                for e in std::fs::read_dir(src).unwrap().flatten() {
+                    let p = e.path();
+                    let d = dst.join(e.file_name());
+                    if p.is_dir() {
+                        copy_dir(&p, &d);
+                    } else {
+                        let _ = std::fs::copy(&p, &d);
+                    }
+                }
+            }
+            let img = format!("{}-killimg", dir);
+            let _ = std::fs::remove_dir_all(&img);
+            copy_dir(std::path::Path::new(&dir), std::path::Path::new(&img));
+            match turdb::Database::open(&img) {
+                Ok(k) => println!("> {}\n  {}", l, fmt_result(&k.execute(sql))),
+                Err(e) => println!("> {}\n  open failed: {}", l, e),
+            }
+            let _ = std::fs::remove_dir_all(&img);
+            continue;
+        }
+        if l == ".wal" {
+            // (file id, page) of every frame currently in the log files
+            let mut segs: Vec<_> = std::fs::read_dir(format!("{}/wal", dir)).map(|r| r.flatten().map(|e| e.path()).collect()).unwrap_or_default();
+            segs.sort();
+            for p in segs {
+                let b = std::fs::read(&p).unwrap_or_default();
+                let n = b.len() / 16416;
+                let frames: Vec<String> = (0..n)
+                    .map(|i| {
+                        let h = &b[i * 16416..i * 16416 + 32];
+                        let fid = u64::from_le_bytes(h[0..8].try_into().unwrap());
+                        let pg = u32::from_le_bytes(h[8..12].try_into().unwrap());
+                        format!("{}:{}", fid & 0xffff, pg)
+                    })
+                    .collect();
+                println!("> .wal {} {} bytes: {}", p.file_name().unwrap().to_string_lossy(), b.len(), frames.join(" "));
+            }
+            continue;
+        }
         if l == ".clone" {
             handles.push(db.clone());
             println!("> .clone -> handle {}", handles.len());
